@@ -6,7 +6,6 @@ From V Require Export Proofs.Gregorian.
 Import ListNotations.
 Open Scope Z_scope.
 Ltac Zify.zify_post_hook ::= Z.to_euclidean_division_equations.
-Set Default Timeout 300.
 
 (** month/day <-> ordinal, by enumeration of both year lengths *)
 Definition md_fwd_ok (i : Z) : bool :=
